@@ -11,6 +11,7 @@ import (
 	"path/filepath"
 	"runtime"
 	"sort"
+	"strconv"
 	"sync"
 	"sync/atomic"
 	"time"
@@ -59,6 +60,7 @@ type Replay struct {
 }
 
 type Run struct {
+	stalled int32 // set when a case did not return within the wall-clock watchdog
 	ID      string
 	Tier    string
 	Seed    int64
@@ -159,6 +161,9 @@ type T struct {
 	lh     map[string]int64
 	ls     map[string]int64
 	evals  int64
+	// watchdog bookkeeping (set by ParallelW)
+	started *int64
+	current *int64
 }
 
 func (t *T) flush() {
@@ -363,14 +368,21 @@ func (r *Run) ParallelW(family string, n int64, workers int, fn func(t *T)) {
 	if workers < 1 {
 		workers = 1
 	}
+	if atomic.LoadInt32(&r.stalled) != 0 {
+		return // an earlier family left a case that never returned: nothing more is started
+	}
 	var next int64
 	const chunk = 64
 	var wg sync.WaitGroup
+	started := make([]int64, workers) // unix nanoseconds at which the worker's current case began (0 = idle)
+	current := make([]int64, workers)
 	for w := 0; w < workers; w++ {
 		wg.Add(1)
+		w := w
 		go func() {
 			defer wg.Done()
 			t := &T{R: r, Family: family, lh: map[string]int64{}, ls: map[string]int64{}}
+			t.started, t.current = &started[w], &current[w]
 			for {
 				lo := atomic.AddInt64(&next, chunk) - chunk
 				if lo >= n {
@@ -386,14 +398,46 @@ func (r *Run) ParallelW(family string, n int64, workers int, fn func(t *T)) {
 					}
 					t.Index = i
 					t.Rng = rng.New(r.Seed, family, i)
+					atomic.StoreInt64(t.current, i)
+					atomic.StoreInt64(t.started, time.Now().UnixNano())
 					runCase(t, fn)
+					atomic.StoreInt64(t.started, 0)
 				}
 				t.flush()
 			}
 			t.flush()
 		}()
 	}
-	wg.Wait()
+	// Wall-clock watchdog: a case that does not return is not a verdict of this
+	// family (the logical budgets are), but it must not keep the check from
+	// finishing. When it fires the run is marked inconclusive, nothing further
+	// is started, and whatever was decided so far is reported.
+	done := make(chan struct{})
+	go func() { wg.Wait(); close(done) }()
+	limit := caseTimeout()
+	for {
+		select {
+		case <-done:
+			return
+		case <-time.After(5 * time.Second):
+			now := time.Now().UnixNano()
+			for w := range started {
+				if st := atomic.LoadInt64(&started[w]); st != 0 && time.Duration(now-st) > limit {
+					atomic.StoreInt32(&r.stalled, 1)
+					r.Inconclusive(fmt.Sprintf("%s case %d did not return within the wall-clock watchdog (%v); no logical budget fired, so this is not a verdict", family, atomic.LoadInt64(&current[w]), limit))
+					return
+				}
+			}
+		}
+	}
+}
+
+// caseTimeout is the wall-clock watchdog per case (VERIF_CASE_TIMEOUT seconds, default 900).
+func caseTimeout() time.Duration {
+	if v, err := strconv.Atoi(os.Getenv("VERIF_CASE_TIMEOUT")); err == nil && v > 0 {
+		return time.Duration(v) * time.Second
+	}
+	return 900 * time.Second
 }
 
 // Serial runs a single pseudo-case (for monitors that are not case-parallel).
